@@ -78,7 +78,7 @@ func (c *xCall) short(dir string) string {
 		if strings.HasPrefix(p, dir+"/") {
 			p = "<out>/" + strings.TrimPrefix(p, dir+"/")
 		}
-		ps = append(ps, reDigits.ReplaceAllString(p, "N"))
+		ps = append(ps, squeeze(reDigits.ReplaceAllString(p, "N")))
 	}
 	return c.Name + "(" + strings.Join(ps, " -> ") + ")"
 }
